@@ -101,6 +101,130 @@ def c15(run):
     run.exhaustive = True
 
 
+# ------------------------------------------------------------------------------------------------ C07
+ALPHA18 = "{97, 49, 48, 120, 46, 101, 34, 92, 61, 33, 45, 62, 32, 10, 35, 194, 160, 36}"
+
+
+def mc_chunks(run, maxlen):
+    c = cfg(constants=dict(Faithful=False, MaxLen=maxlen, AllowEmpty=True, Alphabet=ALPHA18), invariants=("Agree",))
+    return run.mc("MC_Chunks", c, label="MC_Chunks(len<=%d)" % maxlen)
+
+
+def c07(run):
+    run.rule = ("MC: the streaming lexer machine BclLexer (window, refill arithmetic, line table) equals the whole-input lexer BclLex on every byte string "
+                "of length <= L over an 18-byte alphabet under every partition, with and without an interposed empty chunk (L=3 quick, 4 thorough). "
+                "GEN: every concatenation of N lexemes from a 33-lexeme pool of boundary-relevant spellings (N=2 quick, 3 thorough) x every set of <= 2 cut points "
+                "x a zero-byte read before chunk 0/1/2 x last chunk with/without EOF, and every lexeme pair behind a comment line placing the real 4096-byte page "
+                "boundary at every offset; ParseFile through a scripted FileInput must equal Parse on the whole input in error, diagnostics and dump bytes. "
+                "Non-trivial = at least one cut (or a page boundary) ; distinct by case.")
+    mc_chunks(run, 3 if run.quick else 4)
+    run.gen_replay("Gen_Chunks", cfg(constants=dict(Faithful=False, Scope="cuts", NLex=2 if run.quick else 3), invariants=("EmitCase", "Agree")),
+                   ["replay-chunks"], "C07:cuts")
+    run.gen_replay("Gen_Chunks", cfg(constants=dict(Faithful=False, Scope="page", NLex=2), invariants=("EmitCase",)), ["replay-chunks"], "C07:page")
+    run.exhaustive = True
+
+
+# ------------------------------------------------------------------------------------------------ C10 / C14 (real dumps into TLC)
+def real_dumps(run, stage, sources, max_n, stride=1):
+    """sources: list of (module, cfg, simulate-kwargs). Real-compiler dumps of the generated programs -> dumps.ndjson."""
+    import os, subprocess
+    cases = os.path.join(run.scratch, stage.replace(":", "_") + ".cases")
+    with open(cases, "w") as f:
+        for mod, c, kw in sources:
+            p = subprocess.Popen(["cat"], stdin=subprocess.PIPE, stdout=f, text=True)
+            r = run.tlc(mod, c, consumer=p, label=stage + ":gen:" + mod, **kw)
+            p.stdin.close()
+            p.wait()
+            if not r["ok"]:
+                raise Inconclusive("generator failed in " + stage)
+    dumps = os.path.join(run.scratch, stage.replace(":", "_") + ".ndjson")
+    s = run.vh(["mkdumps", "--out", dumps, "--max", str(max_n), "--stride", str(stride)], stage + ":dumps", input_path=cases)
+    n = (s.get("extra") or {}).get("dumps", 0)
+    if n == 0:
+        raise Inconclusive("no dumps produced in " + stage)
+    return dumps, n
+
+
+def tlc_on_dumps(run, stage, dumps, n, invariants, view=True):
+    c = cfg(invariants=invariants, view="View" if view else None)
+    r = run.tlc("Trace_Dumps", c, files={"dumps.ndjson": "@" + dumps}, label=stage + ":tlc", timeout=1500)
+    if r["violated"]:
+        # identify the program: the counterexample's first state prints k
+        import re
+        m = re.search(r"/\\ k = (\d+)", r["text"])
+        kk = int(m.group(1)) if m else 0
+        src = None
+        for line in open(dumps + ".src"):
+            j = json.loads(line)
+            if j["k"] == kk:
+                src = j["src"]
+        tail = "\n".join([l for l in r["text"].splitlines() if l.startswith("/\\") or "violated" in l][:40])
+        run.violations.append(dict(why="invariant %s of Trace_Dumps violated by the real dump of program %d" % (r["violated"], kk),
+                                   shape="tlc:" + r["violated"], case=dict(fam="dump", k=kk, src=src), observed=tail, confirmed=True, stage=stage))
+    else:
+        run.traces += n
+    return r
+
+
+def dump_sources(run):
+    q = run.quick
+    return [("Gen_Expr", gen_cfg(dict(Scope="types", ShapeLeaves=3)), {}),
+            ("Gen_Prog", gen_cfg(dict(Scope="bind", MaxItems=3)), {}),
+            ("Gen_Prog", gen_cfg(dict(Scope="blocks", MaxItems=2)), {}),
+            ("Gen_Expr", gen_cfg(dict(Scope="sim", ShapeLeaves=3)), dict(simulate=10 ** 9, depth=14, workers=1, max_cases=30000 if q else 200000))]
+
+
+def c10(run):
+    run.rule = ("TV of real artefacts: the real compiler's dumps of TLC-generated programs (every operator x operand kind, all bind/blocks programs in scope, seeded deep "
+                "expression trees with and/or chains) are decoded by BclFormat and explored by the abstract machine of BclISA along both successors of every JFALSE; "
+                "invariants: exact tiling, RET last, operand kinds and ranges, live slots, jumps on boundaries, balanced blocks, depth >= what each instruction needs, "
+                "0 at RET, and (Unique) the same depth on every path into an offset. Non-trivial = every accepted program (distinct by source).")
+    dumps, n = real_dumps(run, "C10:real", dump_sources(run), 2500 if run.quick else 20000, stride=7 if run.quick else 3)
+    tlc_on_dumps(run, "C10:paths", dumps, n, ("WellFormed", "Unique"))
+    run.extra["programs"] = n
+    run.exhaustive = False
+
+
+# ------------------------------------------------------------------------------------------------ C09 / C13 / C14
+def mc_format(run):
+    c = cfg(constants=dict(Scope="mc", MaxConsts=1 if run.quick else 2), invariants=("FormatOk", "VarintOk"))
+    return run.mc("Gen_Format", c, label="MC_Format")
+
+
+def prog_sources_small(run):
+    return [("Gen_Prog", gen_cfg(dict(Scope="bind", MaxItems=3)), {}),
+            ("Gen_Prog", gen_cfg(dict(Scope="blocks", MaxItems=2)), {}),
+            ("Gen_Expr", gen_cfg(dict(Scope="types", ShapeLeaves=3)), {})]
+
+
+def c09(run):
+    run.rule = ("MC: over program records (names, code, every constant kind incl. opaque ints and floats, positions and line tables across the varint classes) the "
+                "format is decodable, Loadable and re-encodes identically. GEN: scaling-law programs (string constant / identifier / program name / source offset / comment "
+                "of n bytes for 26 sizes around 240/241, 2287/2288, 4096, 8192, 67823/67824) x 9 delivery patterns of the dump (all at once, 1 byte per read, cyclic sizes), "
+                "plus every program of the C01/C03/C04 families: real Dump then LoadProg must give the same disassembly, output, blocks, binding, warnings, runtime error "
+                "with position, and a byte-identical second dump. Non-trivial = every case; distinct by case.")
+    mc_format(run)
+    run.gen_replay("Gen_Format", gen_cfg(dict(Scope="sizes", MaxConsts=1)), ["replay-format"], "C09:sizes")
+    for mod, c, kw in prog_sources_small(run)[: (2 if run.quick else 3)]:
+        run.gen_replay(mod, c, ["replay-format"], "C09:" + c.split('"')[1], **kw)
+    run.exhaustive = False
+
+
+def c13(run):
+    run.rule = ("MC: for every program record in scope every proper prefix of EncodeProg is not Loadable (the format is prefix-free) and the header predicate classifies "
+                "all magic/version values. GEN: all 2^16 magic values and all 2^16 version byte pairs; every cut 0..len-1 of the real dumps of the C03/C04 program families, "
+                "of the scaling-law programs and of the specification-assembled files: LoadProg must return an error, never panic, never a program. "
+                "Non-trivial = every case; distinct by case.")
+    mc_format(run)
+    run.gen_replay("Gen_Format", gen_cfg(dict(Scope="header", MaxConsts=1)), ["replay-format"], "C13:header")
+    run.gen_replay("Gen_Format", gen_cfg(dict(Scope="mc", MaxConsts=1)), ["replay-format", "--cuts", "1"], "C13:spec-bytes")
+    for mod, c, kw in prog_sources_small(run)[: (2 if run.quick else 3)]:
+        run.gen_replay(mod, c, ["replay-format", "--cuts", "1"], "C13:" + c.split('"')[1], **kw)
+    if not run.quick:
+        run.gen_replay("Gen_Format", gen_cfg(dict(Scope="sizes", MaxConsts=1)), ["replay-format", "--cuts", "1"], "C13:sizes")
+    run.exhaustive = False
+
+
 # ------------------------------------------------------------------------------------------------ C16
 def c16(run):
     run.rule = ("GEN: bind cases (descriptor x block) with the specification's flag 'sens' = two or more failing entries or keys colliding on one field "
@@ -155,6 +279,10 @@ CHECKS = {
     "C03": (c03, "model_checking"),
     "C04": (c04, "model_checking"),
     "C05": (c05, "model_checking"),
+    "C07": (c07, "model_checking"),
+    "C09": (c09, "model_checking"),
+    "C10": (c10, "model_checking"),
+    "C13": (c13, "model_checking"),
     "C15": (c15, "model_checking"),
     "C16": (c16, "model_checking"),
     "C17": (c17, "model_checking"),
